@@ -20,13 +20,37 @@
                                    that operators of the generated table only ever see evaluated operands
                                    (except `get_member`'s right one), i.e. the model's `rawOperand` answer is dead.
 
+    * `host_never_asked_underscore` the same statement about the HOST CALLS instead of the evaluator's own log: on the
+                                   recording wrapper `spy h` of any host (its `getattr` appends every name it is asked
+                                   for), no recorded name starts with an underscore.  `HostOK.getattr` is only assumed
+                                   for public names, so the proof has to establish publicity at both call sites; an
+                                   evaluator that passed an underscore name to the host without logging it satisfies
+                                   `no_underscore_getattr` but not this theorem.
+    * `ghost_log_faithful`         on `spy h`, the evaluator's `reads` log lists exactly the names the host was asked
+                                   for, in order (the log the other theorems speak about is not a fiction).
+    * `spy_erasure`, `host_calls_are_the_logged_reads`
+                                   the wrapper is invisible (same result, same host state, same log), hence for the run
+                                   on `h` itself: logged names = names the host's `getattr` receives, all public.
     * `reflective_member_refused`, `safe_method_intercepted`
                                    `get_member` never calls `getattr` on a `_REFLECTIVE_TYPES` object, and never
                                    hands out the real `str.format` / `str.format_map`;
     * `concrete_host_no_underscore` on the concrete host of the correspondence stream (which contains the model of
-                                   `_SafeFormatter`), NO host operation reads an underscore attribute either;
+                                   `_SafeFormatter`, including its traversal INTO generator / frame / code objects), no
+                                   ATTRIBUTE read performed inside a host operation has an underscore name;
     * `prefix_format_bypass_witness` the same host with a formatter that lacks the refusal of
                                    `_SafeFormatter.get_field` (the behaviour before fix e68be99) leaks `_priv`.
+    * `format_traverses_reflective_witness`, `format_reads_private_global_witness`, `member_of_generator_refused_witness`,
+      `format_underscore_attribute_of_frame_refused_witness`
+                                   THE CURRENT CODE'S GAP, in the model as in the code: `g.gi_frame` is refused by
+                                   `get_member`, but `'{0.gi_frame.f_globals[__builtins__][getattr]}'.format(g)` and
+                                   `'{0.gi_frame.f_globals[_REC]}'.format(g)` succeed (index steps are not vetted, and
+                                   `gi_frame`, `f_globals` are public names); only `{0.gi_frame._x}` is refused.
+
+  WHAT THE THEOREMS DO NOT SAY.  They hold at the evaluator's call sites (`get_member`, `get_value`) for every host.
+  Whether private state crosses the boundary INSIDE a host operation (`call`, `getitem`, …) is a property of the host;
+  it is proved only for the concrete host of the stream (`concrete_host_no_underscore`) and otherwise observed by the
+  stream's monitors on the real code.  (`spy_erasure`: `eval (spy h)` and `eval h` return the same result, host state
+  and log, so the statements on the recording wrapper are statements about the run on `h` itself.)
 
   HOST CONTRACT (assumption, validated by the tripwire monitor of stream `expr`, not provable inside the model):
   the whole-system reading of C19 — "never reads an underscore attribute from any object it can reach" —
@@ -34,10 +58,24 @@
   a reachable object performs name-driven attribute traversal or hands out reflective objects, WHERE
     (a) `str.format` / `str.format_map` (the one builtin API that traverses attributes named in its argument)
         are not reachable: `get_member` replaces them by `_safe_format` / `_safe_format_map`, whose
-        `get_field` applies the underscore rule (modelled in the concrete host, `concrete_host_no_underscore`);
+        `get_field` refuses every ATTRIBUTE step whose name starts with an underscore (modelled in the concrete host,
+        `concrete_host_no_underscore`) — and nothing else: index steps (`[__builtins__]`, `[_name]`) and public
+        attribute names are followed on ANY object, reflective ones included;
     (b) objects of `_REFLECTIVE_TYPES` (frame, code, traceback, generator, coroutine, async generator, module —
-        the Gen table `reflectiveTypes`) may be values of an expression, but none of their members can be read
-        (`reflective_member_refused`), so `gi_frame.f_builtins['getattr']` is out of reach.
+        the Gen table `reflectiveTypes`) may be values of an expression; `get_member` reads none of their members
+        (`reflective_member_refused`), so no frame, code object, namespace dict or builtin is ever obtained AS A
+        VALUE and `(g.gi_frame.f_builtins)['getattr'](x, '_priv')` is out of reach.
+  CLAUSE (b) DOES NOT COVER FORMAT FIELDS (contract gap on the current code, monitor key
+  `format-traverses-reflective:<first attribute>`): `'{0.gi_frame.f_globals[__builtins__][getattr]}'.format(g)`
+  evaluates to `'<built-in function getattr>'`, `…f_code.co_filename}` to the path of the source file,
+  `…f_globals[sys].modules[os].environ[HOME]}` to the value of an environment variable, `…f_globals[_private]}` to the
+  text of a module-private global: the formatter walks generator → frame → namespaces / code (and from there modules,
+  classes, …) by public attribute names and arbitrary keys.  Only TEXT comes back — no object, no callable, and no
+  underscore-named ATTRIBUTE is read — so the letter of C19 ("never reads an attribute whose name begins with an
+  underscore") holds, but `_SafeFormatter`'s documented intent ("replacement fields obey the same rule as
+  `get_member`") does not: `get_member` refuses every member of these objects.  The concrete host mirrors the
+  traversal (results are `CV.ostr`: "some str", the text itself is not modelled) and the stream compares the result
+  class (str / which exception) with the real code.
   THE HOST CONTRACT IS FALSE ON REAL TREE NODES (finding D26, monitor key
   `public-method-exposes-private:editable_dict`): with `--match-if` the names `from` / `to` are bound to
   `TreeNode`s, and the PUBLIC method `TreeNode.editable_dict()` returns `dict(self.__dict__)`, so
@@ -45,11 +83,14 @@
   expression.  The evaluator issues no underscore read (every theorem below still holds, and
   `no_underscore_getattr` is exactly what the run shows: reads `editable_dict`, then a `call` and a `getitem`);
   the private state crosses the boundary inside the host operation `call`.  Hence the END-TO-END claim of C19
-  holds only MODULO D26: for hosts whose reachable public API does not hand out an object's `__dict__`.  The
-  stream binds real nodes (case kind `node`) and reports any OTHER mapping keyed by a node's private attribute
-  names under a different key, which fails the check.
-  Before fixes e68be99 / 091716e both (a) and (b) failed; the monitor keys `format-field-attribute` and
-  `reflective-builtin` stay active and the two shrunk reproducers are replayed from corpus/expr on every run.
+  holds only MODULO D26: for hosts whose reachable public API does not hand out an object's private state.  The
+  stream binds real nodes (case kind `node`), calls every public member of every node class with every underscore
+  attribute name, and reports any OTHER exposure — a node's `__dict__`, a private mutable container by identity, or
+  private attribute names as mapping keys / first elements of pairs — under the exposing method's own key, which
+  fails the check.
+  Before fixes e68be99 / 091716e both (a) and (b) failed outright (objects were obtained); the monitor keys
+  `format-field-attribute` and `reflective-builtin` stay active and the two shrunk reproducers are replayed from
+  corpus/expr on every run.
 -/
 import GtModel.Proofs.Expr
 import GtModel.Model.ExprHost
@@ -59,10 +100,8 @@ open GtModel.Expr
 
 variable {σ Obj : Type}
 
-theorem offset_public : ¬ ("offset".startsWith "_" = true) := by decide +kernel
-
 theorem hostOK_true (h : Host σ Obj) : HostOK h (fun _ => True) :=
-  ⟨fun _ _ _ _ => trivial, fun _ _ _ _ => trivial, fun _ _ _ _ => trivial, fun _ _ _ => trivial,
+  ⟨fun _ _ _ _ _ => trivial, fun _ _ _ _ => trivial, fun _ _ _ _ => trivial, fun _ _ _ => trivial,
    fun _ _ _ => trivial, fun _ _ _ _ _ => trivial, fun _ _ _ => trivial, fun _ _ _ => trivial⟩
 
 /-- The evaluator never issues an attribute read whose name starts with an underscore. -/
@@ -129,6 +168,54 @@ theorem names_resolved_default (h : Host σ Obj) (locals globals : Env Obj)
 
 /-- non-vacuity of `hg`: the globals environment the stream handler uses -/
 example : (defaultGlobals.map fun n => (n, CV.builtin n)).map Prod.fst = defaultGlobals := by decide
+
+/-! ### the same statements about the HOST CALLS (recording wrapper `spy`) -/
+
+/-- THE HOST IS NEVER ASKED FOR AN UNDERSCORE ATTRIBUTE.  `spy h` records every name its `getattr` receives, whoever
+    calls it; for every host `h`, token list, environment and initial state, no recorded name starts with "_".
+    Unlike `no_underscore_getattr` this is not a statement about a log the evaluator writes itself: an evaluator
+    whose `get_member` passed an underscore name to the host (and returned the private value) without logging it
+    would still satisfy `no_underscore_getattr`, but its run on `spy h` would record the name and falsify this
+    theorem.  (`HostOK.getattr` is assumed for public names only, so the invariant proof must show publicity of the
+    name at each of the two call sites.) -/
+theorem host_never_asked_underscore (h : Host σ Obj) (locals globals : Env Obj) (tokens : List Tok) (s0 : σ) :
+    ∀ n ∈ (eval (spy h) locals globals tokens (s0, [])).2.hs.2, ¬ (n.startsWith "_" = true) := by
+  have inv := inv_eval (h := spy h) (locals := locals) (globals := globals)
+    (R := fun _ => True) (N := fun _ => True) (H := SpyPub) (spy_hostOK h)
+    ⟨fun _ _ _ => trivial, fun _ => trivial, fun _ _ _ => trivial⟩ tokens (s0, []) (fun _ hm => nomatch hm)
+  exact inv.host
+
+/-- The evaluator's own `reads` log is faithful: on `spy h` it lists exactly the names the host's `getattr` was
+    asked for, in the same order. -/
+theorem ghost_log_faithful (h : Host σ Obj) (locals globals : Env Obj) (tokens : List Tok) (s0 : σ) :
+    (attrReads (eval (spy h) locals globals tokens (s0, []))).map Prod.snd =
+      (eval (spy h) locals globals tokens (s0, [])).2.hs.2 := by
+  have hf := faithful_eval (h := h) (locals := locals) (globals := globals) tokens s0
+  simp only [Faithful] at hf
+  simp only [attrReads, List.map_map]
+  exact hf
+
+/-- ERASURE: the recording wrapper is invisible — `eval` over `spy h` returns the same result, leaves the same host
+    state and writes the same evaluator log as `eval` over `h`. -/
+theorem spy_erasure (h : Host σ Obj) (locals globals : Env Obj) (tokens : List Tok) (s0 : σ) :
+    (eval (spy h) locals globals tokens (s0, [])).1 = (eval h locals globals tokens s0).1 ∧
+    (eval (spy h) locals globals tokens (s0, [])).2.hs.1 = (eval h locals globals tokens s0).2.hs ∧
+    attrReads (eval (spy h) locals globals tokens (s0, [])) = attrReads (eval h locals globals tokens s0) := by
+  have hs := sim_eval (h := h) (locals := locals) (globals := globals) tokens s0 []
+  obtain ⟨h1, h2, h3, _⟩ := hs
+  refine ⟨h1.symm, h2, ?_⟩
+  simp only [attrReads, h3]
+
+/-- Hence, for EVERY host and every run of the evaluator itself (not of a wrapper): the names of the evaluator's
+    attribute reads are exactly the names that the host's `getattr` is asked for when the same run is observed
+    through the recording wrapper, and none of them starts with an underscore. -/
+theorem host_calls_are_the_logged_reads (h : Host σ Obj) (locals globals : Env Obj) (tokens : List Tok) (s0 : σ) :
+    (attrReads (eval h locals globals tokens s0)).map Prod.snd =
+      (eval (spy h) locals globals tokens (s0, [])).2.hs.2 ∧
+    ∀ n ∈ (eval (spy h) locals globals tokens (s0, [])).2.hs.2, ¬ (n.startsWith "_" = true) := by
+  refine ⟨?_, host_never_asked_underscore h locals globals tokens s0⟩
+  rw [← (spy_erasure h locals globals tokens s0).2.2]
+  exact ghost_log_faithful h locals globals tokens s0
 
 /-! ### obligations on the generated operator table -/
 
@@ -304,6 +391,56 @@ theorem nested_spec_refused_witness : let r := eval (concreteHost host) locals g
 theorem prefix_nested_spec_witness : let r := eval (concreteHostWith false host) locals globals tokNested []
     (isStr r.1 "    ab" && r.2.hs == [(1, "_w")]) = true := by decide +kernel
 
+/-! #### format fields and reflective objects (the gap in contract clause (b)) -/
+
+/-- a host with a generator `g` whose frame's globals hold `__builtins__` (the builtins dict) and a private `_REC` -/
+def hostG : HostDesc :=
+  { sents := [], ns := { globals := ["__builtins__", "__name__", "_REC"], locals := [], builtins := ["getattr", "open"],
+                         gbIsBuiltins := true } }
+def localsG : Env CV := [("g", .gen)]
+def tokFmtG (fmt : String) : List Tok :=
+  [.str fmt, .ident "format" 40, opNamed "MEMBER_ACCESS", .ident "g" 48, .fsc 1 .tuple, opNamed "FUNCTION_CALL"]
+def isOStr (r : Except Exc (SVal CV)) : Bool :=
+  match r with | .ok (.obj .ostr) => true | _ => false
+
+/-- `g.gi_frame` is refused by `get_member` (fix 091716e) … -/
+theorem member_of_generator_refused_witness :
+    let r := eval (concreteHost hostG) localsG globals [.ident "g" 0, .ident "gi_frame" 2, opNamed "MEMBER_ACCESS"] []
+    (isExc r.1 "ParseError" && readNames r == [] && r.2.hs == []) = true := by decide +kernel
+
+/-- … but `'{0.gi_frame.f_globals[__builtins__][getattr]}'.format(g)` succeeds on the current code and in the model:
+    the formatter reads `gi_frame` of the generator and `f_globals` of the frame (public names, recorded under id 0)
+    and indexes the namespaces with unvetted keys; the result is a str (text not modelled).  The evaluator's own
+    log stays empty. -/
+theorem format_traverses_reflective_witness :
+    let r := eval (concreteHost hostG) localsG globals (tokFmtG "{0.gi_frame.f_globals[__builtins__][getattr]}") []
+    (isOStr r.1 && readNames r == [] && r.2.hs == [(0, "gi_frame"), (0, "f_globals")]) = true := by decide +kernel
+
+/-- a module-private global is rendered as well: `[_REC]` is an index step, not an attribute step -/
+theorem format_reads_private_global_witness :
+    let r := eval (concreteHost hostG) localsG globals (tokFmtG "{0.gi_frame.f_globals[_REC]}") []
+    (isOStr r.1 && r.2.hs == [(0, "gi_frame"), (0, "f_globals")]) = true := by decide +kernel
+
+/-- what IS refused inside a reflective object: an underscore ATTRIBUTE step (nothing is read) -/
+theorem format_underscore_attribute_of_frame_refused_witness :
+    let r := eval (concreteHost hostG) localsG globals (tokFmtG "{0.gi_frame._x}") []
+    (isExc r.1 "ParseError" && r.2.hs == []) = true := by decide +kernel
+
+/-- missing keys / members are ordinary errors -/
+example : let r := eval (concreteHost hostG) localsG globals (tokFmtG "{0.gi_frame.f_globals[nope]}") []
+    isExc r.1 "KeyError" = true := by decide +kernel
+example : let r := eval (concreteHost hostG) localsG globals (tokFmtG "{0.gi_code.nope}") []
+    isExc r.1 "AttributeError" = true := by decide +kernel
+example : let r := eval (concreteHost hostG) localsG globals (tokFmtG "{0.gi_running}") []
+    isStr r.1 "False" = true := by decide +kernel
+
+/-- non-vacuity of `host_never_asked_underscore` / `ghost_log_faithful`: on the recording wrapper of the concrete
+    host, `x.pub` asks the host for exactly `pub`, and `x._priv` asks for nothing -/
+example : let r := eval (spy (concreteHost host)) locals globals tokPub ([], [])
+    (isInt r.1 5 && r.2.hs.2 == ["pub"] && (attrReads r).map (·.2) == ["pub"]) = true := by decide +kernel
+example : let r := eval (spy (concreteHost host)) locals globals tokPriv ([], [])
+    (isExc r.1 "ParseError" && r.2.hs.2 == []) = true := by decide +kernel
+
 end Witness
 
 /-! ### `get_member`'s two refusals -/
@@ -341,12 +478,19 @@ def Pub (st : CState) : Prop := ∀ p ∈ st, ¬ (p.2.startsWith "_" = true)
 theorem hostGetattr_pub (d : HostDesc) (o : CV) (name : String) (st : CState)
     (hn : ¬ (name.startsWith "_" = true)) (hp : Pub st) : Pub (hostGetattr d o name st).2 := by
   unfold hostGetattr
-  split
-  · intro p hm
+  have app : ∀ id : Nat, Pub (st ++ [(id, name)]) := by
+    intro id p hm
     simp only [List.mem_append, List.mem_singleton] at hm
     rcases hm with hm | hm
     · exact hp p hm
     · rw [hm]; exact hn
+  split
+  · exact app _
+  · exact app 0
+  · exact app 0
+  · exact app 0
+  · exact hp
+  · exact hp
   · exact hp
   · exact hp
 
@@ -475,14 +619,29 @@ theorem cvCall_pub (d : HostDesc) (a b : CV) (st : CState) (hp : Pub st) : Pub (
         · exact hp
       · exact hp
 
+theorem evalGetattr_pub (d : HostDesc) (a : CV) (n : String) (hn : ¬ (n.startsWith "_" = true)) (st : CState)
+    (hp : Pub st) : Pub (evalGetattr d a n st).2 := by
+  unfold evalGetattr
+  dsimp only
+  split
+  · intro p hm
+    simp only [List.mem_append, List.mem_singleton] at hm
+    rcases hm with hm | hm
+    · exact hp p hm
+    · rw [hm]; exact hn
+  · exact hp
+
 theorem concreteHost_ok (d : HostDesc) : HostOK (concreteHost d) Pub :=
-  ⟨fun _ _ _ h => h, fun a b t h => cvCall_pub d a b t h, fun _ _ _ h => h, fun _ _ h => h,
+  ⟨fun a n hn t h => evalGetattr_pub d a n hn t h, fun a b t h => cvCall_pub d a b t h, fun _ _ _ h => h, fun _ _ h => h,
    fun _ _ h => h, fun _ _ _ _ h => h, fun _ _ h => h, fun _ _ h => h⟩
 
 /-- On the concrete host of the correspondence stream — sentinel objects with private attributes, callable
-    attributes, and the model of `_safe_format` / `_safe_format_map` with field traversal — NO host operation
-    reads an underscore attribute during any evaluation: together with `no_underscore_getattr` this is C19's
-    "never reads an underscore attribute" for this host, for every token list and every environment. -/
+    attributes, a generator with its frame / code object / namespaces, and the model of `_safe_format` /
+    `_safe_format_map` with field traversal — every ATTRIBUTE read on a sentinel or a reflective object, whether issued
+    by the evaluator (`evalGetattr`) or inside the host operation `call` (format traversal, `hostGetattr`), is recorded
+    in the host state, and none has an underscore name: C19's "never reads an underscore attribute" for this host, for
+    every token list and every environment.  (Index steps of format fields — `[__builtins__]`, `[_name]` on a
+    namespace — are not attribute reads and are not recorded; see `format_reads_private_global_witness`.) -/
 theorem concrete_host_no_underscore (d : HostDesc) (locals globals : Env CV) (tokens : List Tok) :
     ∀ p ∈ (eval (concreteHost d) locals globals tokens []).2.hs, ¬ (p.2.startsWith "_" = true) := by
   have inv := inv_eval (h := concreteHost d) (locals := locals) (globals := globals)
